@@ -29,7 +29,7 @@ ASSUMPTIONS = [
     'sync call(): the wait primitive is a harness event that pumps the '
     'generated deliveries instead of sleeping; asyncio call(): virtual time',
 ]
-BUDGET = {'quick': 1600, 'thorough': 64000}
+BUDGET = {'quick': 6000, 'thorough': 80000}
 FLOOR = {'quick': 100, 'thorough': 4000}
 
 NSS = ['/', '/x', '/y']
